@@ -50,6 +50,13 @@ BUILD_FLAVOURS = {
 
 
 def build(flavour):
+    if os.environ.get("VERIF_IMPL") == "stage2" and flavour in ("plain", "hooks"):
+        import stage2
+        return stage2.build(flavour)
+    return _build_stage1(flavour)
+
+
+def _build_stage1(flavour):
     """Build /repo's current working tree out of tree; returns objdir (contains cproc-qbe, cproc)."""
     cc, cflags, ldflags = BUILD_FLAVOURS[flavour]
     key = repo_hash() + "-" + flavour
@@ -366,3 +373,28 @@ def token_kinds():
     body = body[:body.index("};")]
     body = re.sub(r"/\*.*?\*/", "", body, flags=re.S)
     return [x.strip() for x in body.split(",") if x.strip()]
+
+
+# --- shared pool of generated inputs (consumed by C02/C03/C19/C20) -----------------------
+def pool_add(pid, src, target="x86_64-sysv", mode="c", cap=300):
+    """Drop a generated input into .work/pool/<pid>/ so whole-compiler checks can reuse it."""
+    d = os.path.join(WORK, "pool", pid)
+    os.makedirs(d, exist_ok=True)
+    data = src.encode("utf-8", "surrogateescape") if isinstance(src, str) else src
+    name = "%s+%s+%s.c" % (sha(data)[:12], target, mode)
+    if os.path.exists(os.path.join(d, name)):
+        return
+    if len(os.listdir(d)) >= cap:
+        return
+    with open(os.path.join(d, name), "wb") as f:
+        f.write(data)
+
+
+def pool_items():
+    """-> list of (pid, path, target, mode)"""
+    out = []
+    for p in sorted(glob.glob(os.path.join(WORK, "pool", "*", "*.c"))):
+        base = os.path.basename(p)[:-2].split("+")
+        if len(base) == 3:
+            out.append((os.path.basename(os.path.dirname(p)), p, base[1], base[2]))
+    return out
